@@ -120,7 +120,7 @@ def ex(e):
   if t == 'bin': return '(%s %s %s)' % (ex(e[2]), e[1], ex(e[3]))
   if t == 'un': return '(%s%s)' % (e[1], ex(e[2]))
   if t == 'list': return '[%s]' % ', '.join(ex(x) for x in e[1])
-  if t == 'rec': return '{%s}' % ', '.join('%s: %s' % (f, ex(x)) for f, x in e[1])
+  if t == 'rec': return '{%s}' % ', '.join(('%s:' % f[1]) if isinstance(f, tuple) else '%s: %s' % (f, ex(x)) for f, x in e[1])
   if t == 'fld': return '%s.%s' % (ex(e[1]), e[2])
   if t == 'elem': return 'Element(%s, %s)' % (ex(e[1]), ex(e[2]))
   if t == 'if': return '(if %s then %s else %s)' % (ex(e[1]), ex(e[2]), ex(e[3]))
